@@ -16,6 +16,51 @@ def loosen(rng, mode, t):
     return rng.choice(c)
 
 
+def chunk_sizes(rng, n):
+    """sizes of consecutive frames the flat result list is cut into (empty frames included)"""
+    out, left = [], n
+    while left > 0:
+        k = rng.choice([0, 1, 1, 2, 3, 5])
+        out.append(min(k, left))
+        left -= out[-1]
+    if rng.random() < 0.3:
+        out.append(0)
+    return out
+
+
+def gen_extra_gts(rng, scene):
+    matched = [r["gt"] for r in scene["results"] if r["gt"] is not None]
+    key = lambda g: (g["label"], tuple(g["pos"]), g["yaw"])  # noqa: E731
+    taken = {key(g) for g in matched}
+    out = []
+    for _ in range(rng.choice([0, 1, 1, 2, 2, 3])):
+        r = rng.random()
+        if r < 0.25 and matched:
+            j = rng.randrange(len(matched))
+            out.append(dict(matched[j], copy_of_matched=True))
+        else:
+            g = A.gen_spec(rng, label="false_positive" if r < 0.45 else rng.choice(A.LABELS[:3]))
+            if key(g) in taken:
+                continue
+            out.append(g)
+    return out
+
+
+def thr_repr(thresholds, rep):
+    if rep == "int":
+        return [int(t) if float(t).is_integer() else t for t in thresholds]
+    if rep == "np":
+        import numpy as np
+
+        return [np.float64(t) for t in thresholds]
+    return list(thresholds)
+
+
+def ap_supported(case):
+    """Ap / Map need get_matching(mode) for every result (Ap._calculate_average_sd): 2D objects only have centre distance and IoU 2D"""
+    return case["scene"].get("dim") != "2d" or case["mode"] in ("CENTERDISTANCE", "IOU2D")
+
+
 class ThresholdPairCorr(Corr):
     name = "threshold_pairs"
     header = HEADER
@@ -24,7 +69,7 @@ class ThresholdPairCorr(Corr):
 
     def cases(self, tier, rng):
         out = []
-        n = 300 if tier == "quick" else 4000
+        n = 340 if tier == "quick" else 4000
         for i in range(n):
             mode = rng.choice(A.MODES)
             scene = A.gen_scene(rng, tie_heavy=(i % 7 == 0))
@@ -52,10 +97,23 @@ class ThresholdPairCorr(Corr):
             t1 = [rng.choice(pool) for _ in targets]
             t2 = [loosen(rng, mode, t) for t in t1]
             n_gt = sum(1 for r in scene["results"] if r["gt"] is not None) + rng.randint(0, 2)
-            out.append({"scene": scene, "mode": mode, "targets": targets, "t_strict": t1, "t_loose": t2, "num_gt": n_gt})
+            case = {"scene": scene, "mode": mode, "targets": targets, "t_strict": t1, "t_loose": t2, "num_gt": n_gt}
+            # scene level: the same results handed to Ap as the nested list get_scene_result builds ([[], frame 1, frame 2, ...])
+            if i % 2 == 1:
+                case["nested"] = chunk_sizes(rng, len(scene["results"]))
+            # ground truths NO estimate was paired with (the second loop of get_negative_objects): fresh ones, copies of a matched one
+            # (equal state: DynamicObject.__eq__), FP-labelled ones
+            if i % 3 != 2:
+                case["extra_gts"] = gen_extra_gts(rng, scene)
+            # 2D objects (integer ROIs): IOU3D / plane distance do not exist for them (get_matching(mode) is None -> label correctness decides)
+            if i % 5 == 2:
+                case["scene"] = dict(scene, dim="2d")
+            # representation of the thresholds: Python floats / ints where integral / numpy float64
+            case["thr_rep"] = ["float", "int", "np"][i % 3] if i % 2 == 0 else "float"
+            out.append(case)
         return out
 
-    def _one(self, case, results, thresholds):
+    def _one(self, case, results, thresholds, extra=()):
         from perception_eval.evaluation.matching.object_matching import MatchingMode
         from perception_eval.evaluation.matching.objects_filter import get_negative_objects, get_positive_objects
         from perception_eval.evaluation.metrics.detection.ap import Ap
@@ -63,33 +121,55 @@ class ThresholdPairCorr(Corr):
 
         mm = MatchingMode[case["mode"]]
         tl = [A.label_enum(x) for x in case["targets"]]
+        two_d = case["scene"].get("dim") == "2d"
+        thresholds = thr_repr(thresholds, case.get("thr_rep", "float"))
         o = {}
         for nm, tpm in (("ap", TPMetricsAp()), ("aph", TPMetricsAph())):
+            if two_d and nm == "aph":
+                continue                    # no heading on 2D objects (Map skips APH: is_detection_2d)
+            fs = A.facts(case["scene"], results, case["mode"], case["targets"], thresholds, tpm)
+            for f in fs:
+                f["thr"] = None if f["thr"] is None else float(f["thr"])
+            o[nm] = {"facts": fs}
+            if not ap_supported(case):
+                continue
             flat = list(results)
             ap = Ap(tp_metrics=tpm, object_results=flat, num_ground_truth=case["num_gt"], target_labels=tl,
                     matching_mode=mm, matching_threshold_list=thresholds)
             ids = {id(r): i for i, r in enumerate(results)}
-            o[nm] = {"facts": A.facts(case["scene"], results, case["mode"], case["targets"], thresholds, tpm),
-                     "tp_list": [float(x) for x in ap.tp_list], "fp_list": [float(x) for x in ap.fp_list],
-                     "ap": A.inf_to_none(ap.ap), "order": [ids[id(r)] for r in flat]}
-        # mAP / mAPH as Map computes them from the per-label buckets (the clause "and mAP")
-        from perception_eval.evaluation.matching.objects_filter import divide_objects, divide_objects_to_num
-        from perception_eval.evaluation.metrics.detection.map import Map
+            o[nm].update({"tp_list": [float(x) for x in ap.tp_list], "fp_list": [float(x) for x in ap.fp_list],
+                          "ap": A.inf_to_none(ap.ap), "order": [ids[id(r)] for r in flat]})
+            if case.get("nested") is not None:
+                # scene level (oracle only): [[]] + the frames, as PerceptionEvaluationManager.get_scene_result pools them
+                nested, k = [[]], 0
+                for sz in case["nested"]:
+                    nested.append(list(results[k:k + sz]))
+                    k += sz
+                ap2 = Ap(tp_metrics=tpm, object_results=nested, num_ground_truth=case["num_gt"], target_labels=tl,
+                         matching_mode=mm, matching_threshold_list=thresholds)
+                o[nm]["nested"] = {"tp_list": [float(x) for x in ap2.tp_list], "ap": A.inf_to_none(ap2.ap), "n": ap2.objects_results_num}
+        if ap_supported(case):
+            # mAP / mAPH as Map computes them from the per-label buckets (the clause "and mAP")
+            from perception_eval.evaluation.matching.objects_filter import divide_objects, divide_objects_to_num
+            from perception_eval.evaluation.metrics.detection.map import Map
 
-        gts_all = [r.ground_truth_object for r in results if r.ground_truth_object is not None]
-        nums = divide_objects_to_num(gts_all, tl)
-        mp = Map(object_results_dict=divide_objects(list(results), tl), num_ground_truth_dict=nums, target_labels=tl, matching_mode=mm,
-                 matching_threshold_list=thresholds)
-        o["map"], o["maph"] = A.inf_to_none(mp.map), A.inf_to_none(mp.maph)
-        o["label_aps"] = [A.inf_to_none(a.ap) for a in mp.aps]
+            gts_all = [r.ground_truth_object for r in results if r.ground_truth_object is not None]
+            nums = divide_objects_to_num(gts_all, tl)
+            mp = Map(object_results_dict=divide_objects(list(results), tl), num_ground_truth_dict=nums, target_labels=tl, matching_mode=mm,
+                     matching_threshold_list=thresholds, **({"is_detection_2d": True} if two_d else {}))
+            o["map"], o["maph"] = A.inf_to_none(mp.map), A.inf_to_none(mp.maph)
+            o["label_aps"] = [A.inf_to_none(a.ap) for a in mp.aps]
         tp, fp = get_positive_objects(list(results), tl, mm, thresholds)
-        gts = [r.ground_truth_object for r in results if r.ground_truth_object is not None]
+        gts = [r.ground_truth_object for r in results if r.ground_truth_object is not None] + list(extra)
         tn, fn = get_negative_objects(gts, list(results), tl, mm, thresholds)
         tp_ids = {id(r) for r in tp}
         fn_ids = {id(g) for g in fn}
+        tn_ids = {id(g) for g in tn}
         o["tp_flags"] = [id(r) in tp_ids for r in results]
         o["fn_flags"] = [r.ground_truth_object is not None and id(r.ground_truth_object) in fn_ids for r in results]
         o["n_tp"], o["n_fp"], o["n_fn"], o["n_tn"] = len(tp), len(fp), len(fn), len(tn)
+        o["extra_fn"] = [id(g) in fn_ids for g in extra]
+        o["extra_tn"] = [id(g) in tn_ids for g in extra]
         return o
 
     def run_impl(self, case):
@@ -100,15 +180,24 @@ class ThresholdPairCorr(Corr):
         for thr in (case["t_loose"], case["t_strict"]):
             if not A.MAXIMIZE[other] or all(0.0 <= t <= 1.0 for t in thr):      # IoU thresholds outside [0,1] are rejected by an assertion
                 self._one(dict(case, mode=other), results, thr)
-        return {"strict": self._one(case, results, case["t_strict"]), "loose": self._one(case, results, case["t_loose"])}
+        extra = [A.make_object(g, f"x{j}", case["scene"].get("dim", "3d")) for j, g in enumerate(case.get("extra_gts", []))]
+        try:
+            return {"strict": self._one(case, results, case["t_strict"], extra), "loose": self._one(case, results, case["t_loose"], extra)}
+        except AssertionError as e:
+            # every generated threshold is valid for the case's mode (distances >= 0, IoU in [0, 1]): a rejection is reported by the oracle
+            return {"error": f"AssertionError: {e}"}
 
     def coq_term(self, case, obs):
+        if "error" in obs:
+            return "false"
         m = A.mode_lit(case["mode"])
         parts = []
         for side in ("strict", "loose"):
             o = obs[side]
             for nm in ("ap", "aph"):
-                x = o[nm]
+                x = o.get(nm)
+                if x is None or "tp_list" not in x:
+                    continue
                 rs = llit([A.res_lit(f) for f in x["facts"]])
                 parts.append(f"check_ap {m} {case['num_gt']} {rs} {llit([qlit(v) for v in x['tp_list']])} "
                              f"{llit([qlit(v) for v in x['fp_list']])} {olit(x['ap'], qlit)} {llit([str(i) + '%nat' for i in x['order']])}")
@@ -117,10 +206,15 @@ class ThresholdPairCorr(Corr):
         return "(" + " && ".join(parts) + ")%bool"
 
     def coq_debug(self, case, obs):
+        if "error" in obs:
+            return "tt"
         rs = llit([A.res_lit(f) for f in obs["strict"]["ap"]["facts"]])
         return f"(map (positive_tp {A.mode_lit(case['mode'])}) {rs}, map (matched_fn {A.mode_lit(case['mode'])}) {rs})"
 
     def oracle(self, case, obs):
+        if "error" in obs:
+            return (f"judging {'2D' if case['scene'].get('dim') == '2d' else '3D'} results under {case['mode']} with the valid thresholds "
+                    f"{case['t_strict']} / {case['t_loose']} raises {obs['error']}")
         s, l = obs["strict"], obs["loose"]
         fs = s["ap"]["facts"]
         # the property speaks about ordinary (non false-positive-labelled) ground truth
@@ -132,6 +226,30 @@ class ThresholdPairCorr(Corr):
                 return f"result {i} is a TP at thresholds {case['t_strict']} but not at the looser {case['t_loose']}"
             if l["fn_flags"][i] and not s["fn_flags"][i]:
                 return f"ground truth of result {i} is an FN at the looser thresholds {case['t_loose']} but not at {case['t_strict']}"
+        # ground truths no estimate was paired with (documentation of get_negative_objects: not contained in the object results -> TN when
+        # FP-labelled, FN otherwise) -- at EVERY threshold, so they can never make the FN count rise
+        for j, g in enumerate(case.get("extra_gts", [])):
+            if g.get("copy_of_matched"):
+                continue                    # equal in state to a matched ground truth: C03's distinct-keys assumption, not judged here
+            for side, o in (("strict", s), ("loose", l)):
+                if g["label"] == "false_positive":
+                    if not o["extra_tn"][j] or o["extra_fn"][j]:
+                        return f"unmatched FP-labelled ground truth {j} is not a TN at the {side} thresholds (TN={o['extra_tn'][j]}, FN={o['extra_fn'][j]})"
+                elif not o["extra_fn"][j] or o["extra_tn"][j]:
+                    return (f"unmatched ordinary ground truth {j} ({g['label']}) is not an FN at the {side} thresholds "
+                            f"{case['t_strict'] if side == 'strict' else case['t_loose']} (FN={o['extra_fn'][j]}, TN={o['extra_tn'][j]})")
+        # scene level: the nested list [[], frame 1, ...] pools the same results in the same order -> the same TP list and AP
+        for side, o in (("strict", s), ("loose", l)):
+            for nm in ("ap", "aph"):
+                x = o.get(nm)
+                if x is None or "nested" not in x:
+                    continue
+                nst = x["nested"]
+                if nst["n"] != len(fs) or nst["tp_list"] != x["tp_list"]:
+                    return (f"{nm} at the {side} thresholds: the flat result list gives cumulative TP {x['tp_list']} but the same results as nested "
+                            f"per-frame lists [[]] + {case['nested']} give {nst['tp_list']} over {nst['n']} results")
+                if (nst["ap"] is None) != (x["ap"] is None) or (x["ap"] is not None and abs(nst["ap"] - x["ap"]) > 1e-12):
+                    return f"{nm} at the {side} thresholds: {x['ap']} from the flat list but {nst['ap']} from the nested per-frame lists"
         if has_fp_gt:
             return None
         if s["n_tp"] > l["n_tp"]:
@@ -139,12 +257,20 @@ class ThresholdPairCorr(Corr):
         if s["n_fn"] < l["n_fn"]:
             return f"FN count rises from {s['n_fn']} to {l['n_fn']} when loosening {case['t_strict']} -> {case['t_loose']}"
         for nm in ("ap", "aph"):
+            if nm not in s or "tp_list" not in s[nm]:
+                continue
             a, b = s[nm]["ap"], l[nm]["ap"]
             if (a is None) != (b is None):
                 return f"{nm} definedness depends on the threshold ({a} vs {b})"
             if a is not None and b < a - 1e-9:
                 return f"{nm} drops from {a} to {b} when loosening {case['t_strict']} -> {case['t_loose']}"
+            if "nested" in s[nm]:
+                a, b = s[nm]["nested"]["ap"], l[nm]["nested"]["ap"]
+                if (a is None) != (b is None) or (a is not None and b < a - 1e-9):
+                    return f"scene-level {nm} (nested per-frame lists) goes from {a} to {b} when loosening {case['t_strict']} -> {case['t_loose']}"
         for nm in ("map", "maph"):
+            if nm not in s:
+                continue
             a, b = s[nm], l[nm]
             if (a is None) != (b is None):
                 return f"{nm} definedness depends on the threshold ({a} vs {b})"
@@ -153,19 +279,37 @@ class ThresholdPairCorr(Corr):
         return None
 
     def nontrivial(self, case, obs):
-        return obs["strict"]["tp_flags"] != obs["loose"]["tp_flags"] or obs["strict"]["ap"]["ap"] != obs["loose"]["ap"]["ap"]
+        if "error" in obs:
+            return False
+        return obs["strict"]["tp_flags"] != obs["loose"]["tp_flags"] or obs["strict"]["ap"].get("ap") != obs["loose"]["ap"].get("ap")
 
     def describe(self, case, obs):
+        if "error" in obs:
+            return {"case": {k: v for k, v in case.items() if k != "scene"}, "observed": obs}
         return {"case": {k: v for k, v in case.items() if k != "scene"}, "n_results": len(case["scene"]["results"]),
-                "observed": {side: {"ap": obs[side]["ap"]["ap"], "aph": obs[side]["aph"]["ap"], "n_tp": obs[side]["n_tp"], "n_fn": obs[side]["n_fn"]}
+                "observed": {side: {"ap": obs[side]["ap"].get("ap"), "aph": obs[side].get("aph", {}).get("ap"), "n_tp": obs[side]["n_tp"], "n_fn": obs[side]["n_fn"]}
                              for side in ("strict", "loose")}}
 
     def distribution(self, cases, obs):
-        d = {"equal_thresholds": 0, "tp_set_changed": 0, "ap_changed": 0, "with_fp_label_gt": 0, "modes": {}}
+        d = {"equal_thresholds": 0, "tp_set_changed": 0, "ap_changed": 0, "with_fp_label_gt": 0, "modes": {},
+             "scene_level_nested_input": 0, "unmatched_extra_gt": {"ordinary": 0, "fp_labelled": 0, "copy_of_a_matched_gt": 0}, "fn_count_changed": 0,
+             "objects_2d": 0, "objects_2d_mode_without_matching_score": 0, "threshold_representation": {}, "int_typed_thresholds": 0}
         for c, o in zip(cases, obs):
+            if "strict" not in o:
+                continue
             d["equal_thresholds"] += c["t_strict"] == c["t_loose"]
             d["tp_set_changed"] += o["strict"]["tp_flags"] != o["loose"]["tp_flags"]
-            d["ap_changed"] += o["strict"]["ap"]["ap"] != o["loose"]["ap"]["ap"]
+            d["ap_changed"] += o["strict"]["ap"].get("ap") != o["loose"]["ap"].get("ap")
+            d["scene_level_nested_input"] += c.get("nested") is not None and ap_supported(c)
+            for g in c.get("extra_gts", []):
+                k = "copy_of_a_matched_gt" if g.get("copy_of_matched") else "fp_labelled" if g["label"] == "false_positive" else "ordinary"
+                d["unmatched_extra_gt"][k] += 1
+            d["fn_count_changed"] += o["strict"]["n_fn"] != o["loose"]["n_fn"]
+            d["objects_2d"] += c["scene"].get("dim") == "2d"
+            d["objects_2d_mode_without_matching_score"] += not ap_supported(c)
+            rep = c.get("thr_rep", "float")
+            d["threshold_representation"][rep] = d["threshold_representation"].get(rep, 0) + 1
+            d["int_typed_thresholds"] += rep == "int" and any(float(t).is_integer() for t in c["t_strict"] + c["t_loose"])
             d["with_fp_label_gt"] += any(f["gt_fp"] for f in o["strict"]["ap"]["facts"])
             d["modes"][c["mode"]] = d["modes"].get(c["mode"], 0) + 1
         return d
@@ -181,11 +325,16 @@ class C08(Prop):
                   "is_result_correct are monotone in the threshold for ordinary ground truth; a TP stays a TP, a matched FN at the looser threshold "
                   "was one at the stricter, TP counts never drop; AP/APH (any TP weights in [0,1]) and mAP never drop because the ranking does not "
                   "depend on the threshold and the area is monotone in pointwise larger cumulative TP (Abel summation). The model is tied to the real "
-                  "Ap / get_positive_objects / get_negative_objects at ordered threshold pairs (including equal pairs and scores exactly on a threshold).")
+                  "Ap / Map / get_positive_objects / get_negative_objects at ordered threshold pairs (including equal pairs and scores exactly on a threshold), on flat and "
+                  "scene-level nested result lists, 3D boxes and 2D ROIs, with unmatched ground truths present and int / numpy-typed thresholds (those four are oracle-side observations).")
     level_note = ("Trusted: Coq kernel+vm_compute; correspondence harness; binary64 rounding (1e-9); per-pair facts read from the real objects. "
                   "FN *counts* additionally need that unmatched ground truths are FN at every threshold (list bookkeeping of get_negative_objects, C03).")
     rule = ("random scenes (0-14 results, k/8 lattice, ties, unknown / FP-labelled GT in 2/3 of the cases) x matching mode x 1-3 target labels x an ordered "
-            "pair of per-label thresholds from a fixed grid (incl. equal and score-equal-threshold); non-trivial = TP set or AP differs between the two")
+            "pair of per-label thresholds from a fixed grid (incl. equal and score-equal-threshold); non-trivial = TP set or AP differs between the two; "
+            "every 2nd case also hands the results to Ap as the scene-level nested list [[]] + per-frame chunks (empty frames included) and requires the flat TP list / AP and monotonicity there; "
+            "2/3 of the cases add 0-3 ground truths no estimate was paired with (fresh ordinary ones: FN at both thresholds; FP-labelled: TN at both; copies of a matched ground truth: counted only) to get_negative_objects; "
+            "every 5th case uses 2D objects with integer ROIs (no APH; under PLANEDISTANCE / IOU3D there is no score and only the TP/FN status is compared); "
+            "thresholds are passed as Python floats, ints where integral, or numpy float64 in turn")
     assumptions = ["scores compared within 1e-9", "facts read through public getters of the real objects"]
     not_proved = ["list bookkeeping of get_negative_objects for unmatched ground truths (C03)", "binary64 rounding"]
 
